@@ -566,3 +566,33 @@ Proof. exact (proj1 (round_no_leak c w0 (firstn n s) eq_refl)). Qed.
 (* D33: without a read deadline a silent camera never yields an answer: modelled as the missing
    transition — [RSilence] is the only reply kind whose handling needs the deadline *)
 Definition needs_deadline (r : reply) : bool := match r with RSilence => true | _ => false end.
+
+(* ---------- n concurrent first requests: the observation model meets the demand ---------- *)
+Lemma iter_started n :
+  Nat.iter (S n) started w0 =
+  {| w_reg := true; w_cnt := Z.of_nat (S n); w_conns := Z.of_nat (S n); w_readers := Z.of_nat (S n) |}.
+Proof.
+  induction n as [|n IH]; [reflexivity|].
+  change (Nat.iter (S (S n)) started w0) with (started (Nat.iter (S n) started w0)). rewrite IH.
+  unfold started; cbn [w_cnt w_conns w_readers]. f_equal; lia.
+Qed.
+
+Lemma iter_ended_replaced k : forall r c,
+  Nat.iter k ended_replaced {| w_reg := r; w_cnt := c; w_conns := c; w_readers := c |} =
+  {| w_reg := r; w_cnt := c - Z.of_nat k; w_conns := c - Z.of_nat k; w_readers := c - Z.of_nat k |}.
+Proof.
+  induction k as [|k IH]; intros r c.
+  - cbn [Nat.iter nat_rect]. f_equal; lia.
+  - change (Nat.iter (S k) ended_replaced ?w) with (ended_replaced (Nat.iter k ended_replaced w)).
+    rewrite IH. unfold ended_replaced; cbn [w_reg w_cnt w_conns w_readers]. f_equal; lia.
+Qed.
+
+Lemma conc_model_ok n : (1 <= n)%nat -> ok_conc (conc_model n) = true.
+Proof.
+  intros Hn. destruct n as [|n]; [lia|]. unfold ok_conc, conc_model.
+  cbn [co_answers co_live co_registered co_member co_world co_final].
+  rewrite iter_started. replace (S n - 1)%nat with n by lia. rewrite iter_ended_replaced.
+  rewrite (world_eqb_refl w0). cbn [andb Z.eqb]. unfold started, w0, world_eqb.
+  cbn [w_reg w_cnt w_conns w_readers Bool.eqb].
+  replace (Z.of_nat (S n) - Z.of_nat n) with 1 by lia. reflexivity.
+Qed.
